@@ -464,7 +464,9 @@ func handListHunk(r *Rng, cfg GenCfg) (*Val, string) {
 	for j := r.Intn(3); j > 0; j-- {
 		add = append(add, VNum(float64(7+j)))
 	}
-	if len(remove) == 0 && len(add) == 0 {
+	if len(remove) == 0 && len(add) == 0 && !r.Chance(1, 4) {
+		// (one time in four the hunk stays CONTEXT-ONLY: nothing removed, nothing added — a guard; it can only be
+		// built through the exported DiffElement fields, and its expectations must hold all the same)
 		add = append(add, VStr("n"))
 	}
 	idx := i
@@ -927,6 +929,10 @@ func propC06(run *Run, n int) {
 		a, b := largePair(r, false)
 		run.Count("large-arrays")
 		addLargeArrayCase(run, a, b, false)
+		a, b = largeEndsPair(r, 2100+r.Intn(50), true)
+		addLargeArrayCase(run, a, b, false)
+		a, b = largeEndsPair(r, 4200+r.Intn(50), false)
+		addLargeArrayCase(run, a, b, false)
 	}
 	for i := 0; i < n; i++ {
 		var a, b *Val
@@ -1048,6 +1054,10 @@ func propC07(run *Run, n int) {
 		run.Count("large-arrays")
 		addLargeArrayCase(run, a, b, k == 1)
 	}
+	{
+		a, b := largeEndsPair(r, 2100+r.Intn(50), true)
+		addLargeArrayCase(run, a, b, false)
+	}
 	for i := 0; i < n; i++ {
 		ch := choices[r.Intn(len(choices))]
 		cfg := ch.cfg()
@@ -1063,6 +1073,37 @@ func propC07(run *Run, n int) {
 
 // largePair: two arrays of more than 1024 elements (|a|*|b| beyond a million cells: where an implementation would
 // be tempted to cap the LCS table) that differ at two places with unchanged elements between them
+// largeEndsPair: n elements, the two arrays differ at BOTH ends (nothing to trim) and in between at a few places;
+// with `container` an unchanged object sits directly behind the first changed element
+func largeEndsPair(r *Rng, n int, container bool) (*Val, *Val) {
+	xs := make([]*Val, n)
+	for j := range xs {
+		xs[j] = VNum(float64(j))
+	}
+	a := VArr(xs...)
+	if container {
+		a.A[1] = VObj("id", VNum(1), "tags", VArr(VStr("x")))
+	}
+	b := a.Clone()
+	b.A[0] = VStr("first")
+	b.A[n-1] = VStr("last")
+	if !container {
+		// drop some elements and insert others in the middle
+		out := []*Val{}
+		for j, e := range b.A {
+			if j > 1 && j < n-1 && j%97 == 0 {
+				continue
+			}
+			out = append(out, e)
+			if j > 1 && j < n-1 && j%211 == 0 {
+				out = append(out, VStr(fmt.Sprintf("s%d", j)))
+			}
+		}
+		b.A = out
+	}
+	return a, b
+}
+
 func largePair(r *Rng, nested bool) (*Val, *Val) {
 	n := 1030 + r.Intn(80)
 	xs := make([]*Val, n)
@@ -1122,7 +1163,18 @@ func addLargeArrayCase(run *Run, a, b *Val, nested bool) {
 	lcs := prev[len(y)]
 	rm, ad := 0, 0
 	for _, h := range splitHunks(dw) {
-		f := strings.Split(h, " | ")
+		// fields of a hunk: tokens separated by the token "|"
+		f := []string{}
+		cur := []string{}
+		for _, t := range strings.Fields(h) {
+			if t == "|" {
+				f = append(f, strings.Join(cur, " "))
+				cur = []string{}
+			} else {
+				cur = append(cur, t)
+			}
+		}
+		f = append(f, strings.Join(cur, " "))
 		if len(f) != 5 {
 			continue
 		}
